@@ -82,6 +82,24 @@ def run_retry(case):
                 dispatched[best] = s.now
         env.world.on_deliver = on_deliver
         cf = Crazyflie()
+        # ---- requests issued from inside the port callback that handles the answer to an earlier request
+        chained = dict((r['on_answer_of'], i) for i, r in enumerate(reqs) if r.get('on_answer_of') is not None)
+
+        def port_handler(pk):
+            data = bytes(pk.data)
+            for j, i in list(chained.items()):
+                rq = reqs[j]
+                # (the reference model decides which pending request a packet answers: longest matching expectation)
+                if j in issue and j in dispatched and (pk.port, pk.channel) == (rq['port'], rq['channel']) and data[:len(rq['expected'])] == bytes(rq['expected']):
+                    del chained[j]
+                    r = reqs[i]
+                    npk = CRTPPacket()
+                    npk.set_header(r['port'], r['channel'])
+                    npk.data = bytes(r['data'])
+                    issue[i] = (s.now, len(sessions) - 1 if cf.link is not None else None)
+                    cf.send_packet(npk, expected_reply=tuple(r['expected']), timeout=r['timeout'])
+        for prt in (2, 4, 5, 13):
+            cf.add_port_callback(prt, port_handler)
         # ---- timeline: merge requests / unrelated / events by time
         timeline = []
         for i, r in enumerate(reqs):
@@ -102,6 +120,8 @@ def run_retry(case):
                 link_open = cf.link is not None
                 if kind == 'req':
                     r = reqs[arg]
+                    if r.get('on_answer_of') is not None:
+                        continue    # issued by the port callback, not by the time line
                     if r.get('after') is not None and r['after'] not in dispatched:
                         continue    # only meaningful once the earlier request with the same expectation has been answered
 
@@ -282,6 +302,17 @@ def retry_case(draw):
             reqs.append({'t': base['t'] + draw(st.sampled_from([0.06, 0.1, 0.15])), 'port': base['port'], 'channel': base['channel'],
                          'data': list(base['expected']) + [0x50, i], 'expected': list(base['expected']), 'timeout': base['timeout'], 'after': reqs.index(base),
                          'reply': draw(st.sampled_from([None, {'lost': 0, 'delay': 0.3, 'tail': [0xD0]}, {'lost': 1, 'delay': 0.01, 'tail': [0xD1]}]))})
+    if draw(st.sampled_from([False, False, True])):
+        # the callback that handles an answer asks the same thing again (same expectation) straight away
+        # (bases that are answered promptly and exactly once, and that no other added request refers to)
+        answered = [r for r in reqs if r['expected'] and r['reply'] and r['reply']['lost'] == 0 and r['reply']['delay'] <= 0.05 and not r.get('after') and
+                    not any(x.get('after') == k_ for k_, y in enumerate(reqs) if y is r for x in reqs)]
+        if answered:
+            base = answered[draw(st.integers(0, len(answered) - 1))]
+            i = len(reqs)
+            reqs.append({'t': base['t'], 'port': base['port'], 'channel': base['channel'], 'data': list(base['expected']) + [0x58, i], 'expected': list(base['expected']),
+                         'timeout': base['timeout'], 'on_answer_of': reqs.index(base),
+                         'reply': draw(st.sampled_from([None, None, {'lost': 1, 'delay': 0.01, 'tail': [0xD2]}]))})
     events = []
     mode = draw(st.sampled_from(['none', 'none', 'close', 'close-reopen', 'error-reopen', 'close-reopen']))
     if mode != 'none':
